@@ -78,6 +78,15 @@ def cases(thorough):
         for w in (1 / 4, 1.0):
             yield dict(base, block="F", dx=w, resolution=4, direction="z", origin=[0.5] * ndim)
             yield dict(base, block="F", dx=w, resolution=2, direction="z", origin=[0.25] * ndim)
+        # block S: sequences of calls in one process (same window and resolution again, other unit, other layer)
+        if ti in (1, 3, 6, 8):
+            A = dict(base, dx=1 / 4, resolution=3, direction="z", origin=origins[0], win_unit="m", pos_unit="cm")
+            B = dict(A, vector_layer=True)
+            Cc = dict(A, origin=origins[1])
+            D = dict(A, win_unit="cm")
+            E = dict(base, dx=1.0, resolution=4, direction="z", origin=origins[0], win_unit="au", pos_unit="cm", box=3.0e13)
+            for seq in ([A, A], [A, B], [A, Cc], [A, D], [D, A], [E, E], [A, E, A], [B, A, A]):
+                yield dict(base, block="S", sequence=[dict(x) for x in seq])
         if ndim == 3:
             # block C: oblique normals (every lattice direction) and VectorBasis, deviations from the baseline window
             nsel = normals if thorough else normals[::5]
@@ -90,7 +99,8 @@ def cases(thorough):
                     yield dict(base, block="C", dx=0.5, resolution=4, direction=["basis", list(n), list(u)], origin=origins[0], vector_layer=True)
 
 
-def run_case(acc, idx, c):
+def run_single(acc, idx, c, report=None):
+    report = report or c
     mesh, centres, sizes, vals = _map.build_mesh(c)
     box = c.get("box", 1.0)
     p, basis = _map.call_map(c, mesh)
@@ -98,7 +108,7 @@ def run_case(acc, idx, c):
     tag = ("window-smaller-than-a-cell" if small else "window-not-smaller-than-cells") + (":oblique" if isinstance(c.get("direction"), list) else "")
     if isinstance(p, Exception):
         # is there anything to show? sample the centre pixel grid ourselves
-        acc.violation(f"C03:map-raised:{type(p).__name__}:{tag}", idx, c, {"error": repr(p)[:200]})
+        acc.violation(f"C03:map-raised:{type(p).__name__}:{tag}", idx, report, {"error": repr(p)[:200]})
         return "raises", True
     pts, xs, ys, _ = _map.sample_points(c, p, basis)
     idxs, amb, touch, multi = _map.locate(centres, sizes, pts, box)
@@ -111,7 +121,7 @@ def run_case(acc, idx, c):
     mask = np.ma.getmaskarray(lay["data"])
     ny, nx = len(ys), len(xs)
     if data.shape != (ny, nx):
-        acc.violation("C03:image-shape", idx, c, {"shape": list(data.shape), "expected": [ny, nx]})
+        acc.violation("C03:image-shape", idx, report, {"shape": list(data.shape), "expected": [ny, nx]})
         return "violation", True
     dens = vals["density"]
     inside = idxs >= 0
@@ -119,23 +129,23 @@ def run_case(acc, idx, c):
     bad_masked = inside & mask
     if np.any(bad_masked):
         j, i = np.argwhere(bad_masked)[0]
-        acc.violation(f"C03:valid-pixel-masked:{tag}", idx, c, {"pixel": [int(j), int(i)], "point": pts[0, j, i].tolist(), "cell": int(idxs[j, i]),
+        acc.violation(f"C03:valid-pixel-masked:{tag}", idx, report, {"pixel": [int(j), int(i)], "point": pts[0, j, i].tolist(), "cell": int(idxs[j, i]),
                                                                  "masked_valid_pixels": int(bad_masked.sum()), "valid_pixels": int(inside.sum())})
         return "violation", True
     wrong = inside & ~mask & (data != dens[np.where(inside, idxs, 0)])
     if np.any(wrong):
         j, i = np.argwhere(wrong)[0]
-        acc.violation(f"C03:pixel-shows-another-cell:{tag}", idx, c, {"pixel": [int(j), int(i)], "got": float(data[j, i]), "expected": float(dens[idxs[j, i]])})
+        acc.violation(f"C03:pixel-shows-another-cell:{tag}", idx, report, {"pixel": [int(j), int(i)], "got": float(data[j, i]), "expected": float(dens[idxs[j, i]])})
         return "violation", True
     outside = (~inside) & (~amb)
     if np.any(outside & ~mask):
         j, i = np.argwhere(outside & ~mask)[0]
-        acc.violation(f"C03:pixel-outside-every-cell-not-masked:{tag}", idx, c, {"pixel": [int(j), int(i)], "got": float(data[j, i])})
+        acc.violation(f"C03:pixel-outside-every-cell-not-masked:{tag}", idx, report, {"pixel": [int(j), int(i)], "got": float(data[j, i])})
         return "violation", True
     # ambiguous (on a face): masked, or the value of a touching cell
     for (j, i) in np.argwhere(amb):
         if not mask[j, i] and data[j, i] not in dens[touch[j, i]]:
-            acc.violation(f"C03:on-face-pixel-shows-a-non-touching-cell:{tag}", idx, c, {"pixel": [int(j), int(i)], "got": float(data[j, i])})
+            acc.violation(f"C03:on-face-pixel-shows-a-non-touching-cell:{tag}", idx, report, {"pixel": [int(j), int(i)], "got": float(data[j, i])})
             return "violation", True
     # vector layer: projections on u and v and in-plane magnitude
     if c.get("vector_layer"):
@@ -143,7 +153,7 @@ def run_case(acc, idx, c):
         vd = np.ma.getdata(vl["data"])
         vm = np.ma.getmaskarray(vl["data"])
         if vd.shape != (ny, nx, 3):
-            acc.violation("C03:vector-image-shape", idx, c, {"shape": list(vd.shape)})
+            acc.violation("C03:vector-image-shape", idx, report, {"shape": list(vd.shape)})
             return "violation", True
         n_, u_, v_ = basis
         vel = vals["velocity"]
@@ -153,21 +163,44 @@ def run_case(acc, idx, c):
         sel = inside
         want = np.stack([eu[np.where(sel, idxs, 0)], ev[np.where(sel, idxs, 0)], ew[np.where(sel, idxs, 0)]], axis=-1)
         if np.any(vm[sel]):
-            acc.violation(f"C03:vector-valid-pixel-masked:{tag}", idx, c, {})
+            acc.violation(f"C03:vector-valid-pixel-masked:{tag}", idx, report, {})
             return "violation", True
         if not np.allclose(vd[sel], want[sel], rtol=1e-12, atol=1e-12 * np.abs(vel).max()):
-            acc.violation(f"C03:vector-projection-wrong:{tag}", idx, c, {"got": vd[sel][0].tolist(), "expected": want[sel][0].tolist()})
+            acc.violation(f"C03:vector-projection-wrong:{tag}", idx, report, {"got": vd[sel][0].tolist(), "expected": want[sel][0].tolist()})
             return "violation", True
         if str(vl.get("unit")) != str(mesh["velocity"].unit):
-            acc.violation("C03:vector-layer-unit", idx, c, {"unit": str(vl.get("unit"))})
+            acc.violation("C03:vector-layer-unit", idx, report, {"unit": str(vl.get("unit"))})
     if str(lay.get("unit")) != str(mesh["density"].unit) or lay.get("name") != "density":
-        acc.violation("C03:layer-unit-or-name", idx, c, {"unit": str(lay.get("unit")), "name": lay.get("name")})
+        acc.violation("C03:layer-unit-or-name", idx, report, {"unit": str(lay.get("unit")), "name": lay.get("name")})
         return "violation", True
     nvalid = int(inside.sum())
     acc.count("pixels", ny * nx)
     acc.count("pixels_inside_a_cell", nvalid)
     acc.count("pixels_on_a_face", int(amb.sum()))
     return "ok", 0 < nvalid
+
+
+def run_case(acc, idx, c):
+    """A case is one map() call, or a sequence of calls made one after the other in the same process (state the
+    library keeps between calls must not change any of them)."""
+    if "sequence" not in c:
+        return run_single(acc, idx, c)
+    out, nontrivial = "ok", False
+    for k, sub in enumerate(c["sequence"]):
+        before = set(acc.violations)
+        o, nt = run_single(acc, idx, dict(sub, block=c["block"]), report=c)
+        nontrivial = nontrivial or nt
+        if o != "ok":
+            out = o
+            # tag the signatures found at a later step of a sequence
+            if k > 0:
+                for sig in set(acc.violations) - before:
+                    acc.violations[sig + ":only-after-earlier-calls"] = acc.violations.pop(sig)
+                    acc.vcount[sig + ":only-after-earlier-calls"] = acc.vcount.pop(sig)
+                    for _, rec in acc.violations[sig + ":only-after-earlier-calls"]:
+                        rec["sig"] = sig + ":only-after-earlier-calls"
+            break
+    return out, nontrivial
 
 
 def work(payload):
